@@ -1,4 +1,5 @@
 import Pds.Proofs.KernelTie.SizingLossy
+import Pds.Proofs.KernelTie.LossyWindow
 /-!
 # C09 — tie by translation: `LossyCounter::with_epsilon` (the width) and the integer bound of `query`
 -/
@@ -11,5 +12,8 @@ theorem lossy_with_epsilon_translated (eps : α) : lossy_with_epsilon eps = loss
 theorem lossy_query_bound_translated (eps threshold : α) (n : Nat)
     (hneg : ∀ x : α, x < 0 → KOps.toNat x = KOps.toNat (0 : α)) :
     lossy_query_bound eps n threshold = lossyBound threshold eps n := lossy_query_bound_eq eps threshold n hneg
+
+theorem add_window_translated (n w : Nat) :
+    lossy_add_window n w = ((n + 1) % w = 0, (n + 1) / w + (if (n + 1) % w = 0 then 0 else 1)) := lossy_add_window_eq n w
 
 end Pds.Tie.C09
